@@ -176,7 +176,12 @@ impl Case {
     }
 
     pub fn encode(&self) -> String {
-        let inp: String = self.input.iter().map(|v| char::from_digit(*v as u32, 36).unwrap()).collect();
+        let identity = self.input.iter().enumerate().all(|(i, v)| *v as usize == i);
+        let inp: String = if identity && self.input.len() > 9 {
+            format!("#{}", self.input.len())
+        } else {
+            self.input.iter().map(|v| char::from_digit(*v as u32, 36).unwrap()).collect()
+        };
         let j = |v: Vec<String>| v.join(",");
         format!(
             "src={};in={};k={};e={};ch={};t={};rk={};pre={};sp={};nt={};cs={};cf={};fm={};ex={};pm={:x};fault={};cp={};spt={}",
@@ -211,7 +216,15 @@ impl Case {
             let hexs = |v: &str| -> Vec<u64> { v.split(',').map(|x| u64::from_str_radix(x, 16).unwrap()).collect() };
             match k {
                 "src" => c.src = Src::parse(v).unwrap(),
-                "in" => c.input = if v == "-" { vec![] } else { v.chars().map(|ch| ch.to_digit(36).unwrap() as u8).collect() },
+                "in" => {
+                    c.input = if v == "-" {
+                        vec![]
+                    } else if let Some(n) = v.strip_prefix('#') {
+                        (0..n.parse::<usize>().unwrap()).map(|i| i as u8).collect()
+                    } else {
+                        v.chars().map(|ch| ch.to_digit(36).unwrap() as u8).collect()
+                    }
+                }
                 "k" => c.known = v == "1",
                 "e" => c.endless = v == "1",
                 "ch" => {
@@ -262,7 +275,7 @@ impl Case {
 
     /// the parameters in effect at the terminal call
     pub fn final_params(&self) -> orx_parallel::Params {
-        Settings::new(self.nt, self.cs).expected_params(3)
+        Settings::new(self.nt, self.cs).expected_params(self.chain_str().len())
     }
 }
 
@@ -327,6 +340,11 @@ pub fn run_case(case: &Case, cfg: &Config, prefix: &[u8], body: BodyFn) -> Obs {
             }
         })
     });
+    if let Err(msg) = &result {
+        if msg.contains("MACHINERY") {
+            sched::machinery_error(&format!("{} (case {})", msg, case.encode()));
+        }
+    }
     let drops = tok::drop_summary();
     let clones = tok::TABLE.lock().unwrap_or_else(|e| e.into_inner()).clones;
     Obs {
